@@ -144,7 +144,7 @@ Variables (p : prog) (r : request) (m : model) (inputs outputs : list (string * 
 Hypothesis Hin : all_vars (r_inputs r) = Some inputs.
 Hypothesis Hout : all_vars (r_outputs r) = Some outputs.
 Hypothesis Hv : validators p r m = true.
-Let p' := with_main p (Some (main_args inputs)) outputs.
+Let p' := final_prog p r inputs outputs.
 
 (* every inlined block anywhere in the returned model (main graph, control-flow bodies, function bodies) belongs to an Inline
    node of the program and passes the alpha check against that node's foreign graph *)
